@@ -83,7 +83,8 @@ class _FRB:
         st, c = self.bt.st, ip.ctx
         chunk = args[0]
         if not c.branch(c.fresh_bool("from_raw_buffer_ok"), lineno):
-            raise PathEnd("raise", "FormatException")
+            st.local_line = c.fresh_int("line_within_chunk")           # the buffer reports the line relative to the chunk
+            raise PathEnd("raise", "FormatException", info={"line_number": st.local_line})
         cut, nl = c.fresh_int("cut"), c.fresh_int("buff_lines")
         fin = st.selfv.get("_is_finished")
         mk = 1 if self.bt.marker else 0
@@ -220,8 +221,16 @@ def _replay_lost_tail(model, ctx, st, oid):
     return {"reproduced": n != len(whole), "input": inp, "observed": "%d entries from read_chunks" % n, "expected": "%d entries (whole read)" % len(whole)}
 
 
-def _mk(do_prepend, marker):
-    name = "C01.NumpyFileReader.read_chunk[%s,%s]" % ("prepend(gzip) mode" if do_prepend else "seek mode", "entry marker" if marker else "no marker")
+def _format_exception_line(ctx, st):
+    """C15, single-offset rule: a format error of the buffer leaves read_chunk with the chunk's base line added exactly once"""
+    ln = ctx.last_raise.get("line_number")
+    if ln is None or not hasattr(st, "local_line"):
+        return [("format.exception.carries.a.line.number", z3.BoolVal(False))]
+    return [("reported.line = lines.delivered.in.earlier.chunks + line.within.chunk", ln == st.nl0 + st.local_line)]
+
+
+def _mk(do_prepend, marker, prefix="C01"):
+    name = prefix + ".NumpyFileReader.read_chunk[%s,%s]" % ("prepend(gzip) mode" if do_prepend else "seek mode", "entry marker" if marker else "no marker")
     holder = {}
 
     def setup(ctx):
@@ -230,12 +239,13 @@ def _mk(do_prepend, marker):
         ctx.ip.loop_specs[("NumpyFileReader.read_chunk", 0)] = LoopSpec(_inv(st), _havoc(st))
         return st
     return Contract(name, target=lambda: _R().read_chunk, setup=setup, requires=_requires, ensures=_ensures,
-                    raises={"FormatException": lambda ctx, st: [], "Exception": lambda ctx, st: []},
+                    raises={"FormatException": _format_exception_line, "Exception": lambda ctx, st: []},
                     dropped=["docstring", "commented-out code", "logger calls"], concretize=_replay_lost_tail,
                     canaries=[("short read test", "self._is_finished = bytes_read < min_chunk_size", "self._is_finished = bytes_read <= min_chunk_size", lambda: _R()._get_buffer),
                               ("tail off by one", "self._prepend = chunk[buff.size:]", "self._prepend = chunk[buff.size + 1:]") if do_prepend else
                               ("seek off by one", "self._file_obj.seek(buff.size - chunk.size, 1)", "self._file_obj.seek(buff.size - chunk.size + 1, 1)"),
-                              ("pending tail dropped at end of file", "if not temp_chunks or already_at_end:", "if True:")])
+                              ("pending tail dropped at end of file", "if not temp_chunks or already_at_end:", "if True:"),
+                              ("line offset added twice", "                e.line_number += self.n_lines_read\n                raise e\n\n        self._prepend", "                e.line_number += 2 * self.n_lines_read\n                raise e\n\n        self._prepend")])
 
 
 seek_plain, seek_marker = _mk(False, False), _mk(False, True)
